@@ -1,65 +1,9 @@
 /-
   Whole-history invariant of the update backlog: at most one pending cluster update per address.
 -/
-import FocaModel.Proofs.Compose
+import FocaModel.Proofs.Frames
 import FocaModel.Proofs.SendUpd
 namespace Foca
-
-/-- the state differs at most in the member list, the active counter and the cursor -/
-def OnlyMembership (s s' : State) : Prop :=
-  s' = { s with ms := s'.ms, numActive := s'.numActive, cursor := s'.cursor }
-
-theorem OnlyMembership.refl (s : State) : OnlyMembership s s := by cases s; rfl
-
-/-- a property of everything but membership survives the membership primitives -/
-def IgnoresMembership (P : State → Prop) : Prop := ∀ s s', OnlyMembership s s' → P s → P s'
-
-theorem membersApply_only (u : Member) (c : Ctx) :
-    match membersApply u c with
-    | .ok _ c' => OnlyMembership c.s c'.s
-    | .err _ c' => c'.s = c.s
-    | .stuck _ => True := by
-  unfold Foca.membersApply
-  cases h : Foca.applyExisting c.s.ms u (fun _ => true) with
-  | some r => obtain ⟨ms', sm⟩ := r; simp only [OnlyMembership]
-  | none =>
-    simp only
-    have hd := drawIdx_frame .choose (c.s.ms.length + 1) c
-    cases hdr : Foca.drawIdx .choose (c.s.ms.length + 1) c with
-    | stuck x => trivial
-    | err e c1 => rw [hdr] at hd; exact hd.1
-    | ok j c1 => rw [hdr] at hd; simp only [OnlyMembership] at hd ⊢; rw [hd.1]
-
-theorem membersApplyExistingIf_only (u : Member) (cond : Member → Bool) (c : Ctx) :
-    match membersApplyExistingIf u cond c with
-    | .ok _ c' => OnlyMembership c.s c'.s
-    | .err _ c' => c'.s = c.s
-    | .stuck _ => True := by
-  unfold Foca.membersApplyExistingIf
-  cases h : Foca.applyExisting c.s.ms u cond with
-  | some r => obtain ⟨ms', sm⟩ := r; simp only [OnlyMembership]
-  | none => exact OnlyMembership.refl _
-
-theorem membersNext_only (c : Ctx) :
-    match membersNext c with
-    | .ok _ c' => OnlyMembership c.s c'.s
-    | .err _ c' => c'.s = c.s
-    | .stuck _ => True := by
-  unfold Foca.membersNext
-  by_cases hs : needsShuffle c.s.cursor c.s.ms.length = true
-  · simp only [hs, if_true]
-    unfold Foca.drawShuffle
-    cases hd : c.orc.draws with
-    | nil => trivial
-    | cons d rest =>
-      cases d with
-      | idx k => trivial
-      | perm p =>
-        simp only
-        by_cases hperm : (p.filterMap (fun i => c.s.ms[i]?)).isPerm c.s.ms = true
-        · simp only [hperm, if_true, OnlyMembership]
-        · simp [hperm]
-  · simp only [hs, Bool.false_eq_true, if_false, OnlyMembership]
 
 /-- leaf obligations for anything that ignores membership: only sending, `addUpdate` and the two kinds
     of plain writes remain -/
@@ -70,24 +14,9 @@ theorem Leaves.of_ignoresMembership {E : Env} {P : State → Prop} (hP : Ignores
     (modCtl : ∀ f, CtlOnly f → Pres P (modS f))
     (modCustom : ∀ f, CustomOnly f → Pres P (modS f)) : Leaves E P where
   init := init
-  membersApply := fun u => ⟨fun c hc => by
-    have := membersApply_only u c
-    cases h : Foca.membersApply u c with
-    | stuck x => trivial
-    | err e c' => rw [h] at this; simp only at this ⊢; rw [this]; exact hc
-    | ok a c' => rw [h] at this; exact hP _ _ this hc⟩
-  membersApplyExistingIf := fun u cond => ⟨fun c hc => by
-    have := membersApplyExistingIf_only u cond c
-    cases h : Foca.membersApplyExistingIf u cond c with
-    | stuck x => trivial
-    | err e c' => rw [h] at this; simp only at this ⊢; rw [this]; exact hc
-    | ok a c' => rw [h] at this; exact hP _ _ this hc⟩
-  membersNext := ⟨fun c hc => by
-    have := membersNext_only c
-    cases h : Foca.membersNext c with
-    | stuck x => trivial
-    | err e c' => rw [h] at this; simp only at this ⊢; rw [this]; exact hc
-    | ok a c' => rw [h] at this; exact hP _ _ this hc⟩
+  membersApply := fun u => Pres.of_onlyMembership hP (membersApply_only u)
+  membersApplyExistingIf := fun u cond => Pres.of_onlyMembership hP (membersApplyExistingIf_only u cond)
+  membersNext := Pres.of_onlyMembership hP membersNext_only
   removeDown := fun id => Pres.modS_of (fun s hs => hP _ _ (by simp only [OnlyMembership]) hs)
   sendMessage := sendMessage
   addUpdate := addUpdate
